@@ -26,6 +26,7 @@ EVID = os.path.join(VERIF, "evidence")
 REPLAYS = os.path.join(EVID, "replays")
 
 import props  # noqa: E402  (property table)
+import incoq  # noqa: E402  (evaluation of sampled histories inside Coq)
 
 
 def log(*a):
@@ -311,6 +312,24 @@ def run_driver(prop, d, tier, seed, budget=None):
             res["divergences"].append({"history": "?", "line": 0, "impl": "", "model": "model driver failed: " + p.stderr.decode()[-500:], "ops": []})
         else:
             res["divergences"] = compare(trace, mout, d.get("ops"))
+    # a sample of the same histories evaluated by the Gallina model INSIDE Coq
+    # (vm_compute), compared there with the implementation's observables: no
+    # extraction, no OCaml glue
+    res["incoq"] = []
+    if d.get("model", True) and d.get("incoq"):
+        big = tier == "thorough"
+        for comp in d["incoq"]:
+            ic = incoq.cross_check(comp, trace, COQ, os.path.join(WORK, "incoq", prop + "_" + name),
+                                   max_hist=400 if big else 40, max_ops=1200 if big else 400,
+                                   max_total=60000 if big else 4000)
+            res["incoq"].append(ic)
+            if ic["error"]:
+                res["divergences"].append({"history": "?", "line": 0, "impl": "",
+                                           "model": "in-Coq evaluation of %s failed: %s" % (comp, ic["error"]), "ops": []})
+            for h, idx in ic["mismatches"][:3]:
+                res["divergences"].append({"history": h, "line": idx, "impl": "(see trace)",
+                                           "model": "the Gallina model evaluated inside Coq differs from the implementation at operation %d of this history" % idx,
+                                           "ops": []})
     res["wall_s"] = time.time() - t0
     return res
 
@@ -434,6 +453,7 @@ def check_property(prop, tier, seed):
     samples = []
     dist = {}
     monitors = {}
+    incoq_ev = []
     if drv_broken is None and model_broken is None:
         for d in cfg["drivers"]:
             r = run_driver(prop, d, tier, seed)
@@ -451,6 +471,9 @@ def check_property(prop, tier, seed):
             compared += compare.last_compared
             samples += s.get("samples", [])[:6]
             dist[d["name"]] = {"streams": s.get("streams"), "op_kinds": s.get("op_kinds"), "notes": s.get("notes")}
+            for ic in r.get("incoq", []):
+                incoq_ev.append({k: ic.get(k) for k in ("component", "ran", "histories", "ops", "wall_s", "error")} |
+                                {"mismatches": len(ic.get("mismatches", []))})
             for k, v in s.get("monitors", {}).items():
                 if k.startswith(prop + "."):
                     monitors[k] = monitors.get(k, 0) + v
@@ -525,6 +548,7 @@ def check_property(prop, tier, seed):
             "input_distribution": dist,
             "known_findings_seen": known_seen,
             "coqchk": coqchk_report,
+            "evaluated_inside_coq": incoq_ev,
             "explanation": cfg.get("explanation", ""),
         },
         "assumptions": cfg.get("assumptions", []) + props.COMMON_ASSUMPTIONS,
